@@ -345,6 +345,10 @@ func adaptiveInputs(c *Ctx, ec *eCase) {
 			in = junkInputs[r.Intn(len(junkInputs))]
 		default:
 			in = []byte(sels[r.Intn(len(sels))])
+			if r.Intn(12) == 0 {
+				// a selector followed by a blank is another (accepted) input, not that selector
+				in = append(in, []byte{' ', '\t', '\r'}[r.Intn(3)])
+			}
 		}
 		ec.inputs = append(ec.inputs, in)
 		if tail >= 0 {
@@ -381,6 +385,9 @@ func serveOptions(c *Ctx, ec *eCase) {
 	}
 	if r.Intn(8) == 0 {
 		ec.setOpt("pflush")
+	}
+	if ec.res == "" && (r.Intn(6) == 0 || ec.preferShadow) {
+		ec.setOpt("shadow")
 	}
 	if ec.res != "" {
 		if r.Intn(2) == 0 {
@@ -818,7 +825,28 @@ func scenRefused(c *Ctx) *eCase {
 	return ec
 }
 
-var scenarios = []func(*Ctx) *eCase{scenNewlineLast, scenDeep, scenUtf8, scenCroak, scenLang, scenReload, scenBlanks, scenWild, scenCatchRel, scenEnds, scenSizes, scenRefused}
+// a menu reached through a CATCH on an unset flag (the VM then runs on the resource's own slice), two branches with
+// sub-branches of the same shape: what another session does at the same node must not matter
+func scenCatchHub(c *Ctx) *eCase {
+	r := c.Rng
+	ec := newScenario(4)
+	ec.node("root", "Root", GInstr{Op: "CATCH", A: "menu", N: uint32(8 + r.Intn(4)), M: false}, GInstr{Op: "HALT"})
+	ec.node("menu", "Menu", GInstr{Op: "MOUT", A: "foo", B: "1"}, GInstr{Op: "MOUT", A: "bar", B: "2"}, GInstr{Op: "HALT"}, GInstr{Op: "INCMP", A: "foo", B: "1"}, GInstr{Op: "INCMP", A: "bar", B: "2"})
+	for _, n := range []string{"foo", "bar"} {
+		ec.node(n, strings.ToUpper(n), GInstr{Op: "MOUT", A: n + "a", B: "1"}, GInstr{Op: "MOUT", A: n + "b", B: "2"}, GInstr{Op: "MOUT", A: "back", B: "0"}, GInstr{Op: "HALT"},
+			GInstr{Op: "INCMP", A: n + "a", B: "1"}, GInstr{Op: "INCMP", A: n + "b", B: "2"}, GInstr{Op: "INCMP", A: "_", B: "0"})
+		for _, l := range []string{"a", "b"} {
+			ec.node(n+l, "leaf "+n+l, GInstr{Op: "MOUT", A: "back", B: "0"}, GInstr{Op: "HALT"}, GInstr{Op: "INCMP", A: "_", B: "0"})
+		}
+	}
+	ec.catchNode()
+	p := func() string { return []string{"1", "2"}[r.Intn(2)] }
+	ec.inputs = ins("", p(), p(), "0", p(), "0", "0", p(), p())
+	ec.preferShadow = true
+	return ec
+}
+
+var scenarios = []func(*Ctx) *eCase{scenNewlineLast, scenDeep, scenUtf8, scenCroak, scenLang, scenReload, scenBlanks, scenWild, scenCatchRel, scenEnds, scenSizes, scenRefused, scenCatchHub}
 
 func genScenarioCases(c *Ctx, n int) []string {
 	var ls []string
